@@ -645,6 +645,7 @@ namespace R
                return n > 0 ? ok( q + n ) : fail();
             }
             case INT_MAX8:
+            case INT_MAX7:
             case INT_MAX300: {
                const int n = unsigned_len( pos, end );
                if( n <= 0 ) return fail();
@@ -653,7 +654,7 @@ namespace R
                   v = v * 10 + unsigned( ch( pos + i ) - '0' );
                   if( v > 100000 ) break;
                }
-               return v <= ( op == INT_MAX8 ? 255u : 300u ) ? ok( pos + n ) : fail();
+               return v <= ( op == INT_MAX8 ? 255u : op == INT_MAX7 ? 7u : 300u ) ? ok( pos + n ) : fail();
             }
             case RAW: {
                const int n = raw_len( pos, end );
@@ -849,6 +850,13 @@ namespace R
             case OPT_ONE_A: return ( pos < end && ch( pos ) == 'a' ) ? ok( pos + 1 ) : ok( pos );
             case AT_ONE_A: return ( pos < end && ch( pos ) == 'a' ) ? ok( pos ) : fail();
             case NOT_AT_ONE_A: return ( pos < end && ch( pos ) == 'a' ) ? fail() : ok( pos );
+            // star< sor< one< c >, one< 'a' > > > and star< sor< one< c >, success > > for characters that are special in printed type names
+            case STAR_NA_SEMI: return star( [ = ]( int q ) { return ( q < end && ( ch( q ) == ';' || ch( q ) == 'a' ) ) ? ok( q + 1 ) : fail(); }, pos );
+            case STAR_NA_RBR: return star( [ = ]( int q ) { return ( q < end && ( ch( q ) == ']' || ch( q ) == 'a' ) ) ? ok( q + 1 ) : fail(); }, pos );
+            case STAR_NA_EQ: return star( [ = ]( int q ) { return ( q < end && ( ch( q ) == '=' || ch( q ) == 'a' ) ) ? ok( q + 1 ) : fail(); }, pos );
+            case STAR_NA_COMMA: return star( [ = ]( int q ) { return ( q < end && ( ch( q ) == ',' || ch( q ) == 'a' ) ) ? ok( q + 1 ) : fail(); }, pos );
+            case STAR_NA_GT: return star( [ = ]( int q ) { return ( q < end && ( ch( q ) == '>' || ch( q ) == 'a' ) ) ? ok( q + 1 ) : fail(); }, pos );
+            case STAR_NA_QUOTE: return star( [ = ]( int q ) { return ( q < end && ( ch( q ) == '\'' || ch( q ) == 'a' ) ) ? ok( q + 1 ) : fail(); }, pos );
             case ACTION_ALT:
             case CONTROL_ALT: return A( pos );
             case CUSTOM_ANY: return seq( A, [ = ]( int q ) { return ( q < end && ch( q ) == ';' ) ? ok( q + 1 ) : fail(); }, pos );  // [Equivalent] to seq< R... > with respect to matching
@@ -928,6 +936,12 @@ namespace R
                st_log.push_back( { 2, id, -1, -1 } );
                return r;
             }
+            case STAR_SORX_SEMI: return star( [ = ]( int q ) { return ( q < end && ch( q ) == ';' ) ? ok( q + 1 ) : A( q ); }, pos );
+            case STAR_SORX_RBR: return star( [ = ]( int q ) { return ( q < end && ch( q ) == ']' ) ? ok( q + 1 ) : A( q ); }, pos );
+            case STAR_SORX_EQ: return star( [ = ]( int q ) { return ( q < end && ch( q ) == '=' ) ? ok( q + 1 ) : A( q ); }, pos );
+            case STAR_SORX_COMMA: return star( [ = ]( int q ) { return ( q < end && ch( q ) == ',' ) ? ok( q + 1 ) : A( q ); }, pos );
+            case STAR_SORX_GT: return star( [ = ]( int q ) { return ( q < end && ch( q ) == '>' ) ? ok( q + 1 ) : A( q ); }, pos );
+            case STAR_SORX_QUOTE: return star( [ = ]( int q ) { return ( q < end && ch( q ) == '\'' ) ? ok( q + 1 ) : A( q ); }, pos );
             case STATE_D: {  // state< LogStateD, R >: the state is default constructed; success( in, outer... ) iff R matched, whatever the apply mode
                const int id = st_next++;
                st_log.push_back( { 0, id, -1, -2 } );
